@@ -119,6 +119,20 @@ def gen_graph(rng, cyc=False, rich=True, nmin=3, nmax=7):
                     else:
                         other.append({"a": "prepend", "var": "PATH", "own": True, "val": "/ibin", "append": False})
                 table = acts[:i0] + [{"if": acts[i0:i1], "else": other}] + acts[i1:]
+            if rich and rng.random() < 0.15:     # if (type == build) { … } else { … }  (setup --type build)
+                flat_i = [k_ for k_, seg in enumerate(table) if "if" not in seg]
+                if flat_i:
+                    k_ = rng.choice(flat_i)
+                    other = [{"a": "prepend", "var": "PATH", "own": True, "val": "/dbg", "append": rng.random() < 0.5}] \
+                        if rng.random() < 0.6 else []
+                    if rng.random() < 0.3 and i + 1 < len(names):
+                        other.append({"a": "dep", "name": rng.choice(names[i + 1:]), "opt": rng.random() < 0.5,
+                                      "just": False, "spec": gen_spec(rng, pool)})
+                    seg = {"if": [table[k_]], "else": other, "cond": "build"}
+                    if rng.random() < 0.3:
+                        seg = {"if": other, "else": [table[k_]], "cond": "build"}
+                    if seg["if"] or seg["else"]:
+                        table[k_] = seg
             sub = "Linux/%s%s/%s" % (n, " dir" if spaces else "", v)
             decls.append({"name": n, "ver": v, "sub": sub, "table": table})
         if rng.random() < 0.85:
@@ -134,7 +148,7 @@ def gen_graph(rng, cyc=False, rich=True, nmin=3, nmax=7):
             if d["name"] == n0:
                 d["sub"] = None
                 lit = lambda a: dict(a, own=False, val="/meta/%s/%s%s" % (n0, d["ver"], a["val"]), more=[]) if a.get("a") in ("prepend", "set") else a
-                d["table"] = [({"if": [lit(x) for x in seg["if"]], "else": [lit(x) for x in seg["else"]]} if "if" in seg else lit(seg))
+                d["table"] = [(dict(seg, **{"if": [lit(x) for x in seg["if"]], "else": [lit(x) for x in seg["else"]]}) if "if" in seg else lit(seg))
                               for seg in d["table"]]
     if rich and rng.random() < 0.3:
         add_second_stack(rng, g)
@@ -199,6 +213,7 @@ def gen_request(rng, g, op=None, plain=False):
     # the entry point: eups.app.setup called directly, or the command line of `eups_setup` (setupcmd.EupsSetup:
     # option parsing, -j / -S / -k / -t / -E / -u / -Z glue, the printed command text)
     req["cli"] = rng.random() < 0.3
+    req["types"] = []                               # --type (set per history by gen_case)
     req["just_flag"] = rng.random() < 0.5          # max_depth 0 is written -j (else -S 0)
     if req["op"] == "unsetup":
         # `unsetup p v`: the version is only compared with the set-up one (a warning)
@@ -271,9 +286,12 @@ def gen_case(rng, cyc=None, nreq=None, plain=False):
     hist = []
     n = nreq or rng.randint(1, 5)
     flip = rng.randint(1, n - 1) if (n > 1 and not plain and rng.random() < 0.12) else None   # mixed setup types (D34)
+    types = ["build"] if rng.random() < 0.2 else []           # setup --type build, for the whole history …
+    tflip = rng.randint(1, n - 1) if (n > 1 and not plain and rng.random() < 0.06) else None   # … or changing midway (D34)
     for k in range(n):
         r = gen_request(rng, g, plain=plain)
         r["inexact"] = inexact if (flip is None or k < flip) else not inexact
+        r["types"] = list(types) if (tflip is None or k < tflip) else ([] if types else ["build"])
         hist.append(r)
     return {"graph": g, "prior": prior, "prior_mode": mode, "history": hist}
 
@@ -291,12 +309,43 @@ def flat_table(table):
     """[(guard, act)] in table order"""
     out = []
     for seg in table:
-        if "if" in seg:
+        if "if" in seg and seg.get("cond"):
+            out += [("type:" + seg["cond"], a) for a in seg["if"]]
+            out += [("ntype:" + seg["cond"], a) for a in seg["else"]]
+        elif "if" in seg:
             out += [("exact", a) for a in seg["if"]]
             out += [("inexact", a) for a in seg["else"]]
         else:
             out.append(("always", seg))
     return out
+
+
+class Mode(int):
+    """The setup type(s) a request runs under, as the oracles pass it around: truth value = "exact" in the setup type
+    (the historical boolean), .types = the --type list."""
+    def __new__(cls, exact, types=()):
+        o = int.__new__(cls, 1 if exact else 0)
+        o.types = tuple(types)
+        return o
+
+
+def mode_of(req):
+    return Mode(not req["inexact"], req.get("types") or ())
+
+
+def guard_holds(gd, mode):
+    if gd == "always":
+        return True
+    if gd == "exact":
+        return bool(mode)
+    if gd == "inexact":
+        return not mode
+    types = getattr(mode, "types", ())
+    if gd.startswith("type:"):
+        return gd[5:] in types
+    if gd.startswith("ntype:"):
+        return gd[6:] not in types
+    raise ValueError(gd)
 
 
 def spec_text(sp):
@@ -340,7 +389,7 @@ def table_text(table, pathvars):
     out = []
     for seg in table:
         if "if" in seg:
-            out.append("if (type == exact) {")
+            out.append("if (type == %s) {" % seg.get("cond", "exact"))
             out += ["   " + act_text(a, pathvars) for a in seg["if"]]
             out.append("} else {")
             out += ["   " + act_text(a, pathvars) for a in seg["else"]]
@@ -423,8 +472,7 @@ class G:
         return None
 
     def acts(self, n, v, exact):
-        want = ("always", "exact" if exact else "inexact")
-        return [a for gd, a in self.flat[(n, v)] if gd in want]
+        return [a for gd, a in self.flat[(n, v)] if guard_holds(gd, exact)]
 
     def reach(self, start_names):
         """names reachable from the given names through the tables of *any* version (over-approximation)"""
@@ -581,7 +629,8 @@ def _do_request(Ss, ud, env, req):
     if req.get("cli"):
         return _do_cli(M, U, Ss, req, out, nest)
     with contextlib.redirect_stderr(io.StringIO()), contextlib.redirect_stdout(io.StringIO()):
-        E = M.Eups(readCache=False, quiet=1, keep=req["keep"], max_depth=req["max_depth"])
+        E = M.Eups(readCache=False, quiet=1, keep=req["keep"], max_depth=req["max_depth"],
+                   setupType=" ".join(req.get("types") or []))
         vname = ver_text(req["ver"])
         tags = list(req["tags"]) or None
         E.selectVRO(tag=tags, versionName=vname, inexact_version=req["inexact"])
@@ -619,6 +668,8 @@ def cli_args(Ss, req):
         args += ["-t", t]
     if req["inexact"]:
         args.append("-E")
+    if req.get("types"):
+        args += ["--type", " ".join(req["types"])]
     args += ["-Z", ":".join(Ss[k] for k in req_path(req))]
     args.append(req["name"])
     v = ver_text(req["ver"])
@@ -853,7 +904,7 @@ def model_db(G_):
 def model_request(G_, db, before, req, roots=None):
     env = canon_env(G_, before)
     env = dict(env, recs={n: list(unvk(v)) if not v.startswith("RAW:") else [v, 99] for n, v in env["recs"].items()})
-    out = {"m": "c01", "op": req["op"], "fuel": FUEL, "db": db, "env": env,
+    out = {"m": "c01", "op": req["op"], "fuel": FUEL, "db": db, "env": env, "types": list(req.get("types") or []),
            "req": {"name": req["name"], "ver": req["ver"], "keep": req["keep"], "max_depth": req["max_depth"],
                    "inexact": req["inexact"], "tags": req["tags"], "path": req_path(req)}}
     if roots:
@@ -1089,7 +1140,7 @@ def check_request(G_, req, r, stats=None, mixed=False):
     requests of both setup types (--inexact and not)."""
     cyc = G_.cyclic_names()
     e0 = canon_env(G_, r["before"])
-    exact = not req["inexact"]
+    exact = mode_of(req)
 
     def cnt(k):
         if stats is not None:
@@ -1176,6 +1227,12 @@ def check_request(G_, req, r, stats=None, mixed=False):
                         for p2, ov in e0["recs"].items():
                             if p2 != m and (p2, ov) in G_.decl and p2 in G_.reach([name]) and e1["recs"].get(p2) != ov \
                                     and m in G_.reach_from(p2, ov):
+                                cls = "D35"
+                        # the same mechanism inside one request: a product asked for in two versions along the
+                        # traversal is set up, then replaced — the replaced version's table names the missing product
+                        # (the property's clause 5 does not apply to such a traversal at all)
+                        for p2, vs in asked.items():
+                            if p2 != m and len(vs) > 1 and any(w2 is not None and m in G_.reach_from(p2, w2) for w2 in vs):
                                 cls = "D35"
                     yield ("C01", "line_designated_version", cls,
                            "%s's table asks for %s -> %s, record %r (before: %r)" % (name, m, w, got, e0["recs"].get(m)))
@@ -1297,9 +1354,11 @@ def evaluate(ctx, pid, cases, stats, workers=12, extra=None):
                 stats["ok"] = stats.get("ok", 0) + 1
             if im.get("deep"):
                 continue
-            mixed = len({h["inexact"] for h in case["history"][:i + 1]}) > 1
+            mixed = len({(h["inexact"], tuple(h.get("types") or ())) for h in case["history"][:i + 1]}) > 1
             if mixed:
                 ctx.hist("mixed_setup_types")
+            if req.get("types"):
+                ctx.hist("setup_type=" + ",".join(req["types"]))
             for prop, clause, cls, detail in check_request(G_, req, r, stats, mixed=mixed):
                 if prop != pid:
                     continue
@@ -1332,7 +1391,7 @@ def replay_case(ctx, pid, rp):
             continue
         if "before" not in r or impl[i].get("deep"):
             continue
-        mixed = len({h["inexact"] for h in case["history"][:i + 1]}) > 1
+        mixed = len({(h["inexact"], tuple(h.get("types") or ())) for h in case["history"][:i + 1]}) > 1
         for prop, clause, cls, detail in check_request(G_, req, r, mixed=mixed):
             if prop == pid:
                 fails.append({"step": i, "clause": clause, "class": cls, "detail": detail})
@@ -1417,13 +1476,13 @@ def roundtrip_oracle(G_, case, raw, impl, model, stats):
         setv, el = set(), {}
         for n in G_.reach([a["name"]]):
             for v in G_.versions(n):
-                sv, e_ = contributed(G_, {n: v}, not a["inexact"])
+                sv, e_ = contributed(G_, {n: v}, mode_of(a))
                 setv |= sv
                 for k_, x_ in e_.items():
                     el.setdefault(k_, set()).update(x_)
         e2 = canon_env(G_, rb["shell"])
         left_recs = {n for n in e2["recs"] if n not in e0["recs"]}
-        cj = conflict_with_just(G_, a["name"], not a["inexact"], req_path(a))
+        cj = conflict_with_just(G_, a["name"], mode_of(a), req_path(a))
         d33 = bool(cj) and bool(left_recs) and left_recs <= G_.reach(cj)
         for k in sorted(set(x0) | set(x2)):
             if x0.get(k) != x2.get(k):
